@@ -522,6 +522,7 @@ func openBase(in *Interp) {
 	})
 
 	openCoroutine(in)
+	openDebug(in)
 }
 
 func looksNumeric(s string) bool {
